@@ -132,6 +132,7 @@ def structural_mutants(rng, wire, limit=None, unknown_types=(0x0F01, 0x0F00)):
         muts.append(('dup', path))
         muts.append(('swap', path))
         muts.append(('ins-crit-before', path))
+        muts.append(('ins-known-crit-before', path))
         muts.append(('ins-noncrit-before', path))
         muts.append(('ins-noncrit-after', path))
         muts.append(('len+1', path))
@@ -157,6 +158,11 @@ def structural_mutants(rng, wire, limit=None, unknown_types=(0x0F01, 0x0F00)):
             new = _edit(tree, path, sw)
         elif kind == 'ins-crit-before':
             new = _edit(tree, path, lambda l, i: l[:i] + [rc.enc_tlv(crit, b'\x01')] + l[i:])
+        elif kind == 'ins-known-crit-before':
+            # a critical type that the packet format (or an earlier revision of it) knows - but not at this place
+            t2 = rng.choice([0x1f, 0x1f, 0x07, 0x15, 0x17, 0x19, 0x1b, 0x1d, 0x21, 0x23, 0x25, 0x27, 0x29, 0x2b, 0x2d, 0x0321, 0x0335, 0x33, 0x35])
+            body = rng.choice([b'', b'\x01', rc.enc_name([rc.comp(8, b'd')]), rc.enc_tlv(0x1e, b'\x01') + rc.enc_name([rc.comp(8, b'd')])])
+            new = _edit(tree, path, lambda l, i: l[:i] + [rc.enc_tlv(t2, body)] + l[i:])
         elif kind == 'ins-noncrit-before':
             new = _edit(tree, path, lambda l, i: l[:i] + [rc.enc_tlv(noncrit, b'\x01\x02')] + l[i:])
         elif kind == 'ins-noncrit-after':
